@@ -901,6 +901,7 @@ fn gen_c19(seed: u64, _index: u64, tier: Tier) -> ServerPlan {
     use crate::server_engine::{OperatorAction, OperatorStep};
     let mut r = Rng::new(seed);
     let n_zones = r.range(1, 3) as usize;
+    let mut id: u16 = 100;
     let mut files: Vec<FileSpec> = Vec::new();
     let mut zone_paths: Vec<(String, String)> = Vec::new(); // (path, apex)
     let mut version = 1u32;
@@ -936,8 +937,7 @@ fn gen_c19(seed: u64, _index: u64, tier: Tier) -> ServerPlan {
     let mut present: Vec<(String, String)> = zone_paths.clone();
     let mut removed: Vec<(String, String)> = Vec::new();
     let phase_len = 2_000u64;
-    let mut id: u16 = 100;
-    let mut ask = |at_ms: u64, r: &mut Rng, messages: &mut Vec<MsgPlan>| {
+    let mut ask = |at_ms: u64, r: &mut Rng, messages: &mut Vec<MsgPlan>, id: &mut u16| {
         let apex = *r.pick(&C19_APEXES);
         let (name, qtype) = match r.below(7) {
             0 | 1 => (child_name("ver", apex), "TXT"),
@@ -947,8 +947,8 @@ fn gen_c19(seed: u64, _index: u64, tier: Tier) -> ServerPlan {
             5 => ("printer.lan.".to_string(), "A"),
             _ => (child_name("x.w", apex), "TXT"),
         };
-        id += 1;
-        let mut q = Message::from_question(id, question(&name, qtype));
+        *id += 1;
+        let mut q = Message::from_question(*id, question(&name, qtype));
         q.header.recursion_desired = r.chance(0.3);
         messages.push(MsgPlan {
             at_ms,
@@ -964,7 +964,7 @@ fn gen_c19(seed: u64, _index: u64, tier: Tier) -> ServerPlan {
         });
     };
     for _ in 0..r.range(1, 3) {
-        ask(r.range(0, 300), &mut r, &mut messages);
+        ask(r.range(0, 300), &mut r, &mut messages, &mut id);
     }
     for phase in 0..n_phases {
         let t0 = 500 + phase * phase_len;
@@ -1021,7 +1021,51 @@ fn gen_c19(seed: u64, _index: u64, tier: Tier) -> ServerPlan {
         for _ in 0..r.range(2, 8) {
             let off = *r.pick(&[0u64, 3, 5, 6, 8, 12, 20, 40, 80, 200, 600, 1200]);
             let at = if r.chance(0.2) { t0.saturating_sub(r.range(1, 50)) } else { t0 + off };
-            ask(at, &mut r, &mut messages);
+            ask(at, &mut r, &mut messages, &mut id);
+        }
+    }
+    // sometimes the server also forwards: requests for names it does not own
+    // wait for a slow forwarder while holding the configuration's read lock,
+    // so a reload finishes loading while requests are in flight
+    let forwarding = r.chance(0.4);
+    let mut universe = Universe::default();
+    if forwarding {
+        let opts = GenOpts { max_depth: 1, max_zones: 3, ttl_choices: vec![300], ..GenOpts::default() };
+        universe = universe::generate(&mut r, &opts);
+        let signal_times: Vec<u64> = operator
+            .iter()
+            .filter(|s| matches!(s.action, OperatorAction::Signal))
+            .map(|s| s.at_ms)
+            .collect();
+        for (i, t) in signal_times.iter().enumerate() {
+            for k in 0..r.range(1, 3) {
+                id += 1;
+                let name = format!("slow{i}x{k}.com.");
+                let mut q = Message::from_question(id, question(&name, "A"));
+                q.header.recursion_desired = true;
+                messages.push(MsgPlan {
+                    at_ms: t.saturating_sub(r.range(0, 30)) + r.range(0, 40),
+                    proto: "udp".into(),
+                    bytes_hex: hex(&q.to_octets().expect("HARNESS: query")),
+                    prefix: None,
+                    cut_at: None,
+                    piece: 0,
+                    piece_gap_ms: 0,
+                    after: "wait".into(),
+                    listen_ms: 1_500,
+                    what: format!("holder query {name} A (forwarded, slow)"),
+                });
+            }
+        }
+        // the local questions must not wander upstream: no recursion desired
+        for m in &mut messages {
+            if !m.what.starts_with("holder") {
+                let mut bytes = unhex(&m.bytes_hex);
+                if bytes.len() > 2 {
+                    bytes[2] &= 0xfe;
+                }
+                m.bytes_hex = hex(&bytes);
+            }
         }
     }
     let mut faults = BTreeMap::new();
@@ -1032,23 +1076,23 @@ fn gen_c19(seed: u64, _index: u64, tier: Tier) -> ServerPlan {
     faults.insert("fs.list_order".into(), 0.5);
     faults.insert("fs.read_error".into(), *r.pick(&[0.0, 0.0, 0.05, 0.2]));
     faults.insert("fs.list_error".into(), *r.pick(&[0.0, 0.0, 0.05]));
-    let max_extra = *r.pick(&[0u64, 4, 19]);
+    let max_extra = if forwarding { *r.pick(&[49u64, 149, 299]) } else { *r.pick(&[0u64, 4, 19]) };
     params.insert("net.latency.max_extra_ms".into(), max_extra);
     if max_extra > 0 {
-        faults.insert("udp.delay".into(), 0.7);
+        faults.insert("udp.delay".into(), if forwarding { 1.0 } else { 0.7 });
         faults.insert("tcp.delay".into(), 0.7);
     }
     ServerPlan {
         knobs: ServerKnobsPlan {
-            authoritative_only: true,
-            forwarding: false,
+            authoritative_only: !forwarding,
+            forwarding,
             protocol_mode: "only-v4".into(),
             cache_size: 512,
             upstream: ServerKnobs::default(),
             faults,
             params,
         },
-        universe: Universe::default(),
+        universe,
         dirs: vec!["zones".into(), "hosts".into(), "explicit".into(), "zones/subdir".into()],
         files,
         args,
@@ -1194,6 +1238,16 @@ fn oracle_c19(plan: &ServerPlan, obs: &ServerObs, seed: u64) -> RunResult {
     // every reply is one version's answer
     for o in &obs.messages {
         let m = &plan.messages[o.index];
+        if m.what.starts_with("holder") {
+            // a forwarded request: only there to be in flight; it must be answered
+            bump(&mut res.stats, "probe.forwarded_request_in_flight_around_a_reload");
+            if o.replies.len() != 1 {
+                res.violations.push(Violation::new("c19.forwarded_request_unanswered").detail(json!({
+                    "message": m.what, "replies": o.replies.len()
+                })));
+            }
+            continue;
+        }
         let a = o.sent_ms;
         let b = o.replies.first().map_or(a + m.listen_ms, |(t, _)| *t);
         let hi = swap_from.iter().filter(|s| **s <= b).count() - 1;
